@@ -59,6 +59,10 @@ func checkC01(c *Ctx) {
 	}
 	r.Rule("R01i", "the handler's request message is allocated per request (shared with C02/R02l): a request that carries fewer URL values than its predecessor is not completed from it", 1)
 	requestAllocatedPerRequest(c, ep, "R01i")
+	r.Rule("R01k", "a query parameter is left unbound by the server only when its key is absent from the URL (shared with C02/R02g): an empty value the client sent reaches the handler", 2)
+	c02Presence(c, ep, "R01k")
+	r.Rule("R01l", "Go client and Go server publish the same path for every configuration of the grid, also for method paths written without a leading slash (shared with C03/R03a)", 6)
+	clientServerPathAgreement(c, "R01l")
 	sconsts := map[string]string{}
 	for _, ef := range ep.Files {
 		for k, v := range constStrings(ef.AST) {
